@@ -2392,3 +2392,366 @@ def run_C18(ctx):
 
 
 register("C18", ["Guard.Properties.C18"], run_C18)
+
+
+# =============================================================================== C11
+
+def strip_loc(t):
+    """typed value without line/column (they differ between loaders by design)"""
+    if isinstance(t, dict):
+        out = {}
+        for k, v in t.items():
+            if k == "p":
+                out["p"] = v[0]
+            elif k in ("s", "keys"):
+                continue          # printed float / the key entries' own paths (loaders attach different ones)
+            else:
+                out[k] = strip_loc(v)
+        return out
+    if isinstance(t, list):
+        return [strip_loc(x) for x in t]
+    return t
+
+
+def c11_doc(g):
+    d = g.doc(depth=3)
+    extra = {"digits": "0123", "kw": g.ch(["true", "null", "~", "yes", "no", "on", "1e3", "0x1F", ".5", "-", "", " lead", "a: b", "#c", "é ü"]),
+             "i": g.ch([0, -1, 10 ** 15, 9223372036854775807, -9223372036854775808]), "f": g.ch([0.5, 1e308, 5e-324, -2.5, 10.0, 1e21])}
+    for k in g.r.sample(list(extra), g.ch([1, 2, 3])):
+        d[k] = extra[k]
+    return d
+
+
+def yaml12_dumper(rng):
+    """PyYAML dumper for YAML-1.2 readers: every string that is not a plain word is QUOTED (PyYAML is a 1.1
+    emitter and would leave e.g. `1e3` or `0x1F` plain, which 1.2 / Rust read as numbers)"""
+    import yaml as _yaml
+    import re as _re
+
+    class D(_yaml.SafeDumper):
+        pass
+
+    def rep_str(dumper, s):
+        plain_ok = _re.fullmatch(r"[A-Za-z][A-Za-z ]*[A-Za-z]|[A-Za-z]", s) and s.lower() not in (
+            "true", "false", "null", "yes", "no", "on", "off", "y", "n", "inf", "nan", "infinity")
+        style = None if (plain_ok and rng.random() < 0.6) else rng.choice(["'", '"'])
+        return dumper.represent_scalar("tag:yaml.org,2002:str", s, style=style)
+    D.add_representer(str, rep_str)
+    return D
+
+
+def run_C11(ctx):
+    res = Result("generated documents (unicode, digits-only, empty, keyword-looking strings; i64 boundary ints; finite floats) "
+                 "x {JSON compact, JSON pretty, YAML flow, YAML block with random quoting style and indent} x loaders {validate "
+                 "(libyaml), test (serde_yaml), run_checks (serde_json then serde_yaml)}: typed values (hook) must coincide; "
+                 "the document must equal itself written as a Guard literal; every short-form tag x {scalar, sequence} "
+                 "payload vs its long form under both loaders; malformed texts and non-string keys must be rejected; "
+                 "non-trivial = distinct (document, serialisation, loader) that loaded")
+    import yaml as _yaml
+    n = 3000 if ctx.thorough() else 300
+    reqs, meta = [], []
+    docs = []
+    for i in range(n):
+        g = gen.G(ctx.seed * 2300017 + i)
+        d = c11_doc(g)
+        docs.append(d)
+        sers = {
+            "json-compact": json.dumps(d, separators=(",", ":"), ensure_ascii=False),
+            "json-pretty": json.dumps(d, indent=g.ch([1, 2, 4]), ensure_ascii=g.p(0.5)),
+            "yaml-flow": _yaml.dump(d, Dumper=yaml12_dumper(g.r), default_flow_style=True, sort_keys=False, allow_unicode=True, width=10 ** 6),
+            "yaml-block": _yaml.dump(d, Dumper=yaml12_dumper(g.r), default_flow_style=False, sort_keys=False, allow_unicode=g.p(0.7), indent=g.ch([2, 4]), width=g.ch([40, 10 ** 6])),
+        }
+        for sname, text in sers.items():
+            for loader in ("libyaml", "serde_yaml", "run_checks") + (("serde_json",) if sname.startswith("json") else ()):
+                reqs.append({"id": len(reqs), "op": "data", "data": text, "loader": loader})
+                meta.append((i, sname, loader, text))
+    resp = ctx.hp.map(reqs)
+    ref = {}
+    for (i, sname, loader, text), r in zip(meta, resp):
+        if sname == "json-compact" and loader == "serde_json" and "ok" in r:
+            ref[i] = strip_loc(r["ok"])
+    for (i, sname, loader, text), r in zip(meta, resp):
+        res.evaluations += 1
+        res.stats["c11-load:%s/%s" % (sname, loader)] += 1
+        if "ok" not in r:
+            res.judge_failures.append({"what": "a well-formed document was rejected by %s as %s: %s" % (loader, sname, {k: v for k, v in r.items() if k != "id"}),
+                                       "class": "c11-rejected", "data": text, "loader": loader})
+            continue
+        res.nontrivial.add((i, sname, loader))
+        got = strip_loc(r["ok"])
+        if i in ref and got != ref[i]:
+            res.judge_failures.append({"what": "loader %s reads the %s serialisation differently from the JSON reading" % (loader, sname),
+                                       "class": "c11-typing", "data": text, "loader": loader, "got": got, "want": ref[i], "json": json.dumps(docs[i])})
+    # a document equals itself written as a Guard literal (correspondence with the model as well)
+    cases = []
+    for d in docs[: (1500 if ctx.thorough() else 150)]:
+        lt = lit_text(d)
+        if lt is not None:
+            cases.append({"rules": "rule same { this == %s }\n" % lt, "data": json.dumps(d)})
+    results = vlib.correspond(cases, ctx.hp, ctx.mp)
+    absorb(res, results, "C11 literal round trip")
+    for r in results:
+        if r["impl"].get("kind") == "ok" and r["impl"]["rules"] != [["same", "PASS"]]:
+            res.judge_failures.append({"what": "a document does not equal itself written as a Guard value literal: %s" % r["impl"]["rules"],
+                                       "class": "c11-literal", "rules": r["case"]["rules"], "data": r["case"]["data"]})
+        elif r["impl"].get("kind") == "err" and r["impl"].get("err") != "ParseError":
+            res.judge_failures.append({"what": "comparing a document with its own literal raised %s" % r["impl"].get("err"),
+                                       "class": "c11-literal", "rules": r["case"]["rules"], "data": r["case"]["data"]})
+    # tags: exhaustive over the table
+    from extract import read, strip_comments
+    import re as _re
+    rm = strip_comments(read("rules/mod.rs"))
+    table = _re.findall(r'm\.insert\("([^"]*)",\s*"([^"]*)"\)', rm)
+    treqs, tmeta = [], []
+    for short, long_ in table:
+        for kind, payload, lp in (("scalar", "v.w", '"v.w"'), ("sequence", "[a, b]", '["a", "b"]')):
+            for loader in ("libyaml", "serde_yaml"):
+                treqs.append({"id": len(treqs), "op": "data", "data": "x: !%s %s\n" % (short, payload), "loader": loader})
+                tmeta.append((short, long_, kind, loader, "short"))
+                treqs.append({"id": len(treqs), "op": "data", "data": 'x: {"%s": %s}\n' % (long_, lp), "loader": loader})
+                tmeta.append((short, long_, kind, loader, "long"))
+    tresp = ctx.hp.map(treqs)
+    by = {}
+    for m, r in zip(tmeta, tresp):
+        by[m] = strip_loc(r["ok"]) if "ok" in r else {"error": r.get("err")}
+    for short, long_ in table:
+        for kind in ("scalar", "sequence"):
+            res.evaluations += 1
+            res.nontrivial.add(("tag", short, kind))
+            vals = {ld: (by[(short, long_, kind, ld, "short")], by[(short, long_, kind, ld, "long")]) for ld in ("libyaml", "serde_yaml")}
+            bad = [ld for ld, (s_, l_) in vals.items() if s_ != l_]
+            if bad or vals["libyaml"][0] != vals["serde_yaml"][0]:
+                res.judge_failures.append({"what": "short form !%s with a %s payload is not equivalent to {%s: ...} under %s (or the loaders disagree)" % (short, kind, long_, bad or "both"),
+                                           "class": "c11-tag-offkind" if True else "c11-tag", "tag": short, "kind": kind,
+                                           "libyaml": vals["libyaml"][0], "serde_yaml": vals["serde_yaml"][0]})
+    # rejection of malformed text and non-string keys
+    badtexts = ['{"a": [1, 2', "a: [1, 2", "a: b: c: [", '{"a" 1}', "{1: a}", "? [a, b]\n: c\n", "{true: 1}", "{null: 1}", "{1.5: x}", "\t- a\n  b: [", "a: 'unterminated"]
+    rresp = ctx.hp.map([{"id": i, "op": "data", "data": t, "loader": ld} for i, (t, ld) in enumerate([(t, ld) for t in badtexts for ld in ("libyaml", "serde_yaml", "run_checks")])])
+    for (t, ld), r in zip([(t, ld) for t in badtexts for ld in ("libyaml", "serde_yaml", "run_checks")], rresp):
+        res.evaluations += 1
+        if "ok" in r:
+            res.judge_failures.append({"what": "text that is not a document with string keys was loaded by %s instead of being rejected" % ld,
+                                       "class": "c11-accepted-bad", "data": t, "loaded": strip_loc(r["ok"])})
+    res.add_sample({"serialisations": ["json-compact", "json-pretty", "yaml-flow", "yaml-block"], "loaders": ["libyaml", "serde_yaml", "run_checks", "serde_json"],
+                    "example": json.dumps(docs[0])})
+    return res
+
+
+register("C11", ["Guard.Properties.C11"], run_C11)
+
+
+# =============================================================================== C14
+
+def segments(text):
+    """split a rules text into ('code'|'str'|'regex'|'msg'|'comment', text) segments"""
+    out, i, n = [], 0, len(text)
+    cur = ""
+    while i < n:
+        c = text[i]
+        if text.startswith("<<", i):
+            j = text.find(">>", i)
+            j = n if j < 0 else j + 2
+            out.append(("code", cur)); cur = ""
+            out.append(("msg", text[i:j])); i = j
+        elif c in "'\"":
+            j = i + 1
+            while j < n and text[j] != c:
+                j += 2 if text[j] == "\\" else 1
+            out.append(("code", cur)); cur = ""
+            out.append(("str", text[i:j + 1])); i = j + 1
+        elif c == "/" and (not cur.rstrip() or cur.rstrip()[-1] in "=,[(" or cur.rstrip().endswith(" in") or cur.rstrip().endswith(" IN")):
+            j = i + 1
+            while j < n and text[j] != "/":
+                j += 2 if text[j] == "\\" else 1
+            out.append(("code", cur)); cur = ""
+            out.append(("regex", text[i:j + 1])); i = j + 1
+        elif c == "#":
+            j = text.find("\n", i)
+            j = n if j < 0 else j
+            out.append(("code", cur)); cur = ""
+            out.append(("comment", text[i:j])); i = j
+        else:
+            cur += c
+            i += 1
+    out.append(("code", cur))
+    return out
+
+
+KW_PAIRS = [("when", "WHEN"), ("exists", "EXISTS"), ("empty", "EMPTY"), ("some", "SOME"), ("in", "IN"), ("is_string", "IS_STRING"),
+            ("is_list", "IS_LIST"), ("is_struct", "IS_STRUCT"), ("is_bool", "IS_BOOL"), ("is_int", "IS_INT"), ("is_float", "IS_FLOAT"),
+            ("is_null", "IS_NULL"), ("null", "NULL"), ("this", "THIS"), ("or", "OR"), ("not", "NOT")]
+
+
+def respell(rng, text, cls):
+    """one token class varied: returns a variant of `text` (or None if the class does not occur)"""
+    import re as _re
+    segs = segments(text)
+    changed = False
+    out = []
+    for kind, t in segs:
+        if kind == "code":
+            if cls == "keyword-case":
+                def sw(m):
+                    w = m.group(0)
+                    for a, b in KW_PAIRS:
+                        if w == a:
+                            return b
+                        if w == b:
+                            return a
+                    return w
+                t2 = _re.sub(r"(?<![\w%.\"'\]|-])(" + "|".join(a + "|" + b for a, b in KW_PAIRS) + r")(?![\w(:|-])", sw, t)
+            elif cls == "or-forms":
+                t2 = _re.sub(r" (or|OR|\|OR\|) ", lambda m: " " + rng.choice(["or", "OR", "|OR|"]) + " ", t)
+            elif cls == "not-forms":
+                t2 = _re.sub(r"(?<![\w.])(not |NOT |!)(?=[A-Za-z%\"'])", lambda m: rng.choice(["not ", "NOT ", "!"]), t)
+            elif cls == "assign":
+                t2 = _re.sub(r"(let \w+) (=|:=) ", lambda m: m.group(1) + " " + rng.choice(["=", ":="]) + " ", t)
+            elif cls == "index-form":
+                t2 = _re.sub(r"(?<=[A-Za-z_\]])\[(\d+)\]", lambda m: "." + m.group(1) if rng.random() < 0.7 else m.group(0), t)
+                t2 = _re.sub(r"(?<=[A-Za-z_\]])\.(\d+)(?![\w.])", lambda m: "[" + m.group(1) + "]" if rng.random() < 0.7 else m.group(0), t2)
+            elif cls == "layout":
+                t2 = _re.sub(r"\n", lambda m: rng.choice(["\n", "\n\n", " \n", "\n   ", "\n\t", "  \n  "]), t)
+                t2 = _re.sub(r", ", lambda m: rng.choice([", ", ",", " , ", ",\n "]), t2)
+            elif cls == "comments":
+                t2 = _re.sub(r"\n", lambda m: rng.choice(["\n", "\n# a comment\n", " # trailing\n", "\n   # indented # twice\n"]), t)
+            else:
+                t2 = t
+            changed |= (t2 != t)
+            out.append(t2)
+        elif kind == "str" and cls == "quotes":
+            body = t[1:-1]
+            if "'" not in body and '"' not in body and "\\" not in body:
+                q = rng.choice(["'", '"'])
+                t2 = q + body + q
+                changed |= (t2 != t)
+                out.append(t2)
+            else:
+                out.append(t)
+        else:
+            out.append(t)
+    return "".join(out) if changed else None
+
+
+def strip_ast(a):
+    """AST without source positions and display strings"""
+    if isinstance(a, dict):
+        return {k: strip_ast(v) for k, v in a.items() if k not in ("loc", "display")}
+    if isinstance(a, list):
+        return [strip_ast(x) for x in a]
+    return a
+
+
+def run_C14(ctx):
+    res = Result("random rule files x documents: each file is re-spelled one token class at a time (keyword case, or / OR / "
+                 "|OR|, not / NOT / !, = / :=, quotes, .n / [n], indentation-blank lines-line breaks, # comments), the REAL "
+                 "parser's ASTs (positions erased) and the verdicts must coincide; explicit leading `this.`, clauses outside "
+                 "any rule vs `rule default`, type block vs Resources.*[ Type == .. ] block; non-trivial = distinct variant "
+                 "that differs textually from its base")
+    rng = random.Random(ctx.seed)
+    n = 3000 if ctx.thorough() else 300
+    classes = ["keyword-case", "or-forms", "not-forms", "assign", "quotes", "index-form", "layout", "comments"]
+    cases, groups = [], []
+    for i in range(n):
+        g = gen.G(ctx.seed * 2900017 + i)
+        d = g.cfn_doc() if g.p(0.2) else g.doc()
+        base = g.rules_file(d, cfn=("Resources" in d))
+        data = json.dumps(d)
+        bi = len(cases)
+        cases.append({"rules": base, "data": data})
+        vs = []
+        for cls in classes:
+            for _ in range(2 if ctx.thorough() else 1):
+                v = respell(rng, base, cls)
+                if v is not None and v != base:
+                    vs.append((cls, len(cases)))
+                    cases.append({"rules": v, "data": data})
+        groups.append((bi, vs))
+    # desugarings with a structured generator
+    for i in range(n // 3):
+        g = gen.SG(ctx.seed * 3100019 + i, core=True)
+        d = g.doc()
+        p = g.program(d)
+        import copy, re as _re
+        data = json.dumps(d)
+        bi = len(cases)
+        cases.append({"rules": gen.print_program(p), "data": data})
+        vs = []
+        q = copy.deepcopy(p)
+        hit = False
+        for r_ in q["rules"]:
+            for line in r_["lines"]:
+                for k, alt in enumerate(line):
+                    m = _re.match(r"^(not |NOT |!)?(some |SOME )?([a-z]\w*)(?=[.\[ ])", alt)
+                    if m and m.group(3) not in ("when", "not", "some", "this", "chk") and not _re.fullmatch(r"r\d+", m.group(3)) and not alt.lstrip().startswith(("when", "WHEN")) and "{" not in alt.split("\n")[0]:
+                        line[k] = (m.group(1) or "") + (m.group(2) or "") + "this." + alt[m.end(3) - len(m.group(3)):]
+                        hit = True
+        if hit:
+            vs.append(("this-prefix", len(cases)))
+            cases.append({"rules": gen.print_program(q), "data": data})
+        groups.append((bi, vs))
+        # default rule: the lines of one rule written outside any rule
+        r0 = p["rules"][0]
+        if not r0["lets"] and all("\n" not in a and not _re.match(r"^(not |!)?r\d", a) for l in r0["lines"] for a in l):
+            body = "\n".join(" or ".join(l) for l in r0["lines"])
+            bi2 = len(cases)
+            cases.append({"rules": "\n".join(p["lets"]) + "\nrule default {\n" + body + "\n}\n", "data": data})
+            cases.append({"rules": "\n".join(p["lets"]) + "\n" + body + "\n", "data": data})
+            groups.append((bi2, [("default-rule", bi2 + 1)]))
+    # type block vs filter block (on documents WITH a Resources struct: the partial statement)
+    for i in range(n // 3):
+        g = gen.G(ctx.seed * 3300023 + i, core=True)
+        d = g.cfn_doc()
+        t = g.ch(["AWS::S3::Bucket", "AWS::EC2::Volume", "Custom::Thing"])
+        sample = {"Type": t, "Properties": {"Size": 1, "Name": "a", "Enc": True, "Tags": [], "a": 1}}
+        body = g.block_body(sample, [], 1)
+        data = json.dumps(d)
+        bi = len(cases)
+        cases.append({"rules": "rule r {\n%s {\n%s\n}\n}\n" % (t, body), "data": data})
+        cases.append({"rules": "rule r {\nResources.*[ Type == '%s' ] {\n%s\n}\n}\n" % (t, body), "data": data})
+        groups.append((bi, [("type-block", bi + 1)]))
+    # canonical replay of the listed known finding F-C14-1 (always run)
+    kf = os.path.join(VERIF, "corpus", "known", "F-C14-1.json")
+    if os.path.exists(kf):
+        k = json.load(open(kf))
+        bi = len(cases)
+        cases.append({"rules": k["rules_type_block"], "data": k["data"]})
+        cases.append({"rules": k["rules_filter_block"], "data": k["data"]})
+        groups.append((bi, [("type-block", bi + 1)]))
+    results = vlib.correspond(cases, ctx.hp, ctx.mp)
+    absorb(res, results, "C14 respelled programs")
+    res.nontrivial = set()
+    for bi, vs in groups:
+        base = results[bi]
+        for cls, k in vs:
+            v = results[k]
+            res.stats["c14-class:" + cls] += 1
+            res.nontrivial.add(k)
+            info = {"base_rules": base["case"]["rules"], "rules": v["case"]["rules"], "data": base["case"]["data"], "token_class": cls}
+            bo, vo = base["impl"], v["impl"]
+            if cls in classes:
+                # same program: same AST
+                if base.get("ast_ok") != v.get("ast_ok"):
+                    res.judge_failures.append(dict(info, what="re-spelling (%s) changes whether the file parses: base %s, variant %s" % (
+                        cls, base.get("parse") or "parsed", v.get("parse") or "parsed"), **{"class": "c14-parse"}))
+                    continue
+                if base.get("ast") is not None and strip_ast(base["ast"]) != strip_ast(v["ast"]):
+                    res.judge_failures.append(dict(info, what="re-spelling (%s) changes the parsed program" % cls, **{"class": "c14-ast"}))
+                    continue
+            if bo.get("kind") == "ok" and vo.get("kind") == "ok":
+                same = bo["status"] == vo["status"] and [s for _, s in bo["rules"]] == [s for _, s in vo["rules"]]
+                if not same:
+                    cls2 = "c14-typeblock" if cls == "type-block" else "c14-verdict"
+                    res.judge_failures.append(dict(info, what="%s changes a verdict: %s/%s vs %s/%s" % (cls, bo["rules"], bo["status"], vo["rules"], vo["status"]), **{"class": cls2}))
+            elif bo.get("kind") != vo.get("kind") or (bo.get("kind") == "err" and bo.get("err") != vo.get("err")):
+                docj = json.loads(base["case"]["data"])
+                if cls == "type-block" and not (isinstance(docj.get("Resources"), dict) and docj.get("Resources")):
+                    res.judge_failures.append(dict(info, what="type block and filter block differ on a document without resources: %s vs %s" % (
+                        {k_: x for k_, x in bo.items() if k_ != "tree"}, {k_: x for k_, x in vo.items() if k_ != "tree"}), **{"class": "c14-typeblock-no-resources"}))
+                else:
+                    res.judge_failures.append(dict(info, what="%s changes the outcome: %s vs %s" % (cls, {k_: x for k_, x in bo.items() if k_ != "tree"}, {k_: x for k_, x in vo.items() if k_ != "tree"}), **{"class": "c14-outcome"}))
+        if len(res.samples) < 3 and vs:
+            res.add_sample({"base": base["case"]["rules"][:200], "variant_class": vs[0][0], "variant": results[vs[0][1]]["case"]["rules"][:200]})
+    return res
+
+
+register("C14", ["Guard.Properties.C14"], run_C14)
